@@ -6,8 +6,12 @@ use serde_json::{json, Value};
 
 const S_IN: [&str; 9] = ["a", "t", "C", "V", "[+cons]", "[]", "{p,a}", "V:[+long]", "a:[-long]"];
 const S_OUT: [&str; 6] = ["i", "t", "[+voice]", "[-hi]", "[-place]", "[+round]"];
-const P_RULES: [&str; 20] = ["% > [+stress]", "% > [-stress]", "% > [+sec.stress]", "% > [-sec.stress]", "% > [tone:5]", "% > [tone:0]", "V > [+stress]", "C > [tone:51]", "a > [-stress, tone:5]", "%:[+stress] > [-stress]",
-    "V:[+long] > [+sec.stress]", "[] > [tone:1234]", "$ > *", "* > $", "$C > &", "C$ > &", "$V > &", "V$ > &", "$a > &", "[]$ > &"];
+const P_RULES: [&str; 27] = ["% > [+stress]", "% > [-stress]", "% > [+sec.stress]", "% > [-sec.stress]", "% > [tone:5]", "% > [tone:0]", "V > [+stress]", "C > [tone:51]", "a > [-stress, tone:5]", "%:[+stress] > [-stress]",
+    "V:[+long] > [+sec.stress]", "[] > [tone:1234]", "$ > *", "* > $", "$C > &", "C$ > &", "$V > &", "V$ > &", "$a > &", "[]$ > &",
+    // alpha-valued stress setters (still "output only sets stress"): the alpha is bound by the input
+    "%:[αstress] > [αsec.stress]", "V:[αstress] > [-αsec.stress]", "[αstress] > [αsec.stress]", "%:[αsec.stress] > [αstress]", "V:[αlong] > [αstress]", "V:[αlong] > [-αsec.stress]", "C:[αsec.stress] > [-αstress, tone:5]"];
+/// the same with the alpha bound by the context
+const P_CTX_RULES: [&str; 6] = ["V > [αsec.stress] / _ C:[αstress]", "V > [-αstress] / [αsec.stress] _", "% > [αstress] / _ %:[αstress]", "V > [Asec.stress] / _C:[Astress]", "% > [-αsec.stress] / %:[αstress] _", "V > [αstress, βsec.stress] / C:[βstress] _ C:[αlong]"];
 
 fn env_texts(size: usize) -> Vec<String> {
     let mut sides: Vec<Vec<&str>> = vec![vec![]];
@@ -72,7 +76,7 @@ fn eval(text: &str, class: char, ipa_out: bool, ws: &[CW], a: &mut Acc) {
 pub fn run() -> i32 {
     let mut r = Report::new("C14");
     let thorough = r.thorough();
-    r.rule = "class S (segment-only): input = 1 or 2 segment-matching items over {a,t,C,V,[+cons],[],{p,a},V:[+long],a:[-long]}, output = the same number of items over {i,t,[+voice],[-hi],[-place],[+round]}; class P (prosody-only): stress / secondary stress / tone setters on % and on segments, `$ > *`, `* > $`, `$X > &`, `X$ > &`; each with no environment and with every context and every exception of <= 1 item (thorough: one item on each side, `#`) over the 22-item environment alphabet (optionals, ellipsis, %, structures, sets, variables); x decorated words of W(I4,L) incl. long segments. Oracle when Ok: S keeps syllable count, stress and tone vectors (and segments per syllable when no long segment is involved); P keeps the flattened segment sequence. Non-trivial = Ok and the word changed.".into();
+    r.rule = "class S (segment-only): input = 1 or 2 segment-matching items over {a,t,C,V,[+cons],[],{p,a},V:[+long],a:[-long]}, output = the same number of items over {i,t,[+voice],[-hi],[-place],[+round]}; class P (prosody-only): stress / secondary stress / tone setters on % and on segments (binary, and alpha-valued with the alpha bound by the input or by the context), `$ > *`, `* > $`, `$X > &`, `X$ > &`; each with no environment and with every context and every exception of <= 1 item (thorough: one item on each side, `#`) over the 22-item environment alphabet (optionals, ellipsis, %, structures, sets, variables); x decorated words of W(I4,L) incl. long segments. Oracle when Ok: S keeps syllable count, stress and tone vectors (and segments per syllable when no long segment is involved); P keeps the flattened segment sequence. Non-trivial = Ok and the word changed.".into();
     let ws = words(if thorough { 4 } else { 3 });
     let e1 = env_texts(if thorough { 2 } else { 1 });
     let e_small: Vec<String> = e1.iter().take(1).cloned().chain(e1.iter().skip(1).step_by(if thorough { 7 } else { 9 }).cloned()).collect();
@@ -80,6 +84,7 @@ pub fn run() -> i32 {
     for i in S_IN { for (oi, o) in S_OUT.iter().enumerate() { for e in &e1 { jobs.push((format!("{} > {}{}", i, o, e), 'S', oi < 2)); } } }
     for i in S_IN { for j in S_IN { for (oi, o) in S_OUT.iter().enumerate() { for (pi, p) in S_OUT.iter().enumerate() { for e in &e_small { jobs.push((format!("{} {} > {} {}{}", i, j, o, p, e), 'S', oi < 2 || pi < 2)); } } } } }
     for p in P_RULES { for e in &e1 { if p == "* > $" && !e.contains('/') { continue; } jobs.push((format!("{}{}", p, e), 'P', false)); } }
+    for p in P_CTX_RULES { jobs.push((p.to_string(), 'P', false)); }
     let mut ts = Acc::default(); let mut tp = Acc::default();
     let mut both: Vec<(Acc, Acc)> = vec![];
     par_fold(jobs.len(), 16, || (Acc::default(), Acc::default()), |i, a: &mut (Acc, Acc)| { let (t, c, ipa) = &jobs[i]; if *c == 'S' { eval(t, 'S', *ipa, &ws, &mut a.0) } else { eval(t, 'P', false, &ws, &mut a.1) } }, |a| both.push(a));
